@@ -15,6 +15,7 @@ import io
 import itertools
 import math
 import operator
+import re
 import sys
 import warnings
 
@@ -1310,10 +1311,10 @@ class KVDef(EntAttribute):
                         file.write('\n')
             elif self._type is ValueTypes.CHOICES:
                 for value, name, tags in self.choices_list:
-                    # Numbers can be unquoted, everything else cannot.
-                    try:
-                        float(value)
-                    except ValueError:
+                    # Plain numbers can be unquoted, everything else cannot. float() accepts too much
+                    # (surrounding spaces, a leading "+", "1_0", "nan"...), those would not re-parse
+                    # to the same string.
+                    if re.fullmatch(r'-?[0-9]+(\.[0-9]+)?', value) is None:
                         value = f'"{_fgd_escape(custom_syntax, value)}"'
 
                     file.write(f'\t\t{value}: ')
